@@ -77,6 +77,36 @@ print(json.dumps(out))
 """
 
 
+OTHER_SCHEMA_DUMPER = r"""
+import sys, json, base64, pickle, random
+sys.path.insert(0, sys.argv[1])
+from vmon import boot
+b = boot.boot()
+m = b.measured
+rng = random.Random(int(sys.argv[2]))
+U = m.Unit._by_name
+out = []
+for i in range(int(sys.argv[3])):
+    # this program counts its own unit as a pure number (pixels, items, ticks); the reader will declare it as something else
+    name, symbol = f"zqc01other{sys.argv[2]}x{i}", f"zqc01ot{sys.argv[2]}x{i}"
+    mine = m.Unit.define(rng.choice([m.Number, m.Number, m.Mass]), name, symbol)
+    second, meter = U["second"], U["meter"]
+    stored = [mine / second, mine ** 2 * meter, b.measured.Prefix._by_name["kilo"] * mine, mine, 3 * (mine / second)]
+    out.append([name, symbol, base64.b64encode(pickle.dumps(stored, rng.choice([2, 4, 5]))).decode()])
+print(json.dumps(out))
+"""
+
+
+def other_schema_pickles(ctx, n):
+    """stored data of a program that declared a unit of the same name with ANOTHER dimension (an older schema)"""
+    try:
+        p = subprocess.run([sys.executable, "-B", "-c", OTHER_SCHEMA_DUMPER, core.VERIF, str(ctx.seed), str(n)], capture_output=True, text=True, timeout=300, env=synth.child_env())
+        return json.loads(p.stdout)
+    except Exception:
+        ctx.count("other_schema_dumper_failed")
+        return []
+
+
 def foreign_pickles(ctx, n):
     try:
         p = subprocess.run([sys.executable, "-B", "-c", DUMPER, core.VERIF, str(ctx.seed), str(n)], capture_output=True, text=True, timeout=300, env=synth.child_env())
@@ -90,6 +120,7 @@ def run(ctx):
     rng = ctx.rng
     n = ctx.scale(160, 4000)
     blobs = foreign_pickles(ctx, 3 * n)
+    others = other_schema_pickles(ctx, n)
     specs = [{"seed": ctx.seed * 1000003 + 1, "steps": 0, "probes": PROBES, "base_width": 10}]  # the empty history
     for i in range(n):
         order = None
@@ -103,7 +134,7 @@ def run(ctx):
                       # every known dimension); the foreign pickles and JSON documents loaded there were written
                       # for the shipped number of fundamental dimensions (stored data outlives such a declaration)
                       "define_dimension": i % 5 == 0, "parse_between_imports": i % 3 == 1,
-                      "foreign_pickles": blobs[3 * i:3 * i + 3]})
+                      "foreign_pickles": blobs[3 * i:3 * i + 3], "other_schema": others[i:i + 1] if i % 3 == 2 else []})
     with ThreadPoolExecutor(max_workers=14) as ex:
         results = list(ex.map(run_worker, specs))
     panel = {}   # probe term -> {dimension exponents (as tuple) -> first seed}
